@@ -199,8 +199,7 @@ def run_case(kind, params, ctx):
                 r = clihelp.run(["pubkey"] + (["-X"] if want_c else []) + [clihelp.fmt_flag(fmt), "-0x"], clihelp.rep(data, fmt))
                 ctx.count("cli.pubkey_bad")
                 ctx.seen("clipkb", (data, fmt, want_c))
-                if r["ok"] and r["out"].strip():
-                    ctx.violation(f"cli/pubkey-accepts-malformed/{cls}/{'compressed' if want_c else 'uncompressed'}-out", f"bits pubkey {'-X ' if want_c else ''}accepted {data.hex()} and printed {r['out'][:70]!r}")
+                clihelp.judge_invalid(ctx, r, f"cli/pubkey-accepts-malformed/{cls}/{'compressed' if want_c else 'uncompressed'}-out", f"bits pubkey {'-X ' if want_c else ''}with {data.hex()}")
         # PEM output must load in OpenSSL
         from cryptography.hazmat.primitives import serialization
         r = clihelp.run(["pubkey", "-X", clihelp.fmt_flag(fmt), "-0pem"], clihelp.rep(k32(k), fmt))
@@ -238,8 +237,7 @@ def run_case(kind, params, ctx):
             ctx.violation(f"cli/wif-decode-wrong/{net}/{typ}", f"bits wif --decode printed {r2['out'][:120]!r}")
         for badk in (b"\x00" * 32, N.to_bytes(32, "big"), b"\x01" * 31):
             rb = clihelp.run(["wif", "-1"], badk)
-            if rb["ok"] and rb["out"].strip():
-                ctx.violation("cli/wif-encodes-invalid-key", f"bits wif accepted {badk.hex()}")
+            clihelp.judge_invalid(ctx, rb, "cli/wif-encodes-invalid-key", f"bits wif with key {badk.hex()}")
         return
     if kind == "sec1_lengths":
         for ln in range(0, 71):
